@@ -87,6 +87,17 @@ def handle : Handler := fun j a => do
   for p in strList j "panics" do
     let site := ((p.splitOn " @ ").getD 1 "?")
     a := a.violationSig s!"C20:panic:{site}" s!"{p} in {ctx}"
+  -- a daemon must not lose the ability to look after its own server: at the end (everything healed, contents sane again)
+  -- every running daemon of a registered host reports its reachable server as reachable
+  let healthJ := (j.getObjVal? "health").toOption.getD Json.null
+  let sane := chaos == "" || chaos == "remove_then_readd_host" || chaos == "move_host_to_cascade_and_back"
+  if sane then
+    for sv in srvs do
+      match (healthJ.getObjVal? sv.host).toOption with
+      | some hj =>
+        if sv.alive && jBoolOr hj "daemon_alive" false && !(jBoolOr hj "ping_ok" false) then
+          a := a.violationSig "C20:daemon-reports-its-reachable-server-as-dead" s!"{sv.host}: {hj.compress} in {ctx}"
+      | none => pure ()
   let gb := jIntOr j "goroutines_before" 0
   let ga := jIntOr j "goroutines_after" 0
   if ga > gb + 4 then a := a.violationSig "C20:goroutines-left-behind" s!"{gb} -> {ga} in {ctx}"
